@@ -160,7 +160,7 @@ func c03StopOnError(c *Check, a *Anchors) {
 		return
 	}
 	c.Fn(a.BodyClosure)
-	pe := &PathEnum{Fn: fn, MaxRevisit: 1, Event: a.ssaLabel}
+	pe := &PathEnum{Fn: fn, MaxRevisit: revisit(), Event: a.ssaLabel}
 	pe.Name = isExitName(pe)
 	pe.Run()
 	if pe.Truncated {
@@ -298,7 +298,7 @@ func c03CmdIgnoreScoped(c *Check, a *Anchors) {
 		return
 	}
 	c.Fn(a.CmdRunner)
-	pe := &PathEnum{Fn: fn, MaxRevisit: 1, Event: a.ssaLabel}
+	pe := &PathEnum{Fn: fn, MaxRevisit: revisit(), Event: a.ssaLabel}
 	pe.Name = isExitName(pe)
 	pe.Run()
 	c.Paths += len(pe.Paths)
